@@ -963,3 +963,163 @@ Proof.
   - apply Nat.leb_le in E. lia.
   - inversion H; subst. reflexivity.
 Qed.
+
+(* ------------------------------------------------------------------ chunk level: append_batch as written *)
+
+Definition need (cp : nat) (cur : list row) (rem : nat) : nat :=
+  if rem =? 0 then 1 else rem + 1 + (if length cur <? cp then 0 else 1).
+
+Lemma skipn_add : forall A (l : list A) a b, skipn (a + b) l = skipn b (skipn a l).
+Proof.
+  intros A l a. revert l. induction a as [|a IH]; intros l b; [reflexivity|].
+  destruct l as [|x l]; [cbn; destruct b; reflexivity|]. cbn [Nat.add skipn]. apply IH.
+Qed.
+
+Lemma append_loop_spec : forall fuel cp batch older cur off rem,
+  0 < cp -> length cur <= cp -> off + rem = length batch -> need cp cur rem <= fuel ->
+  exists h t, append_loop true cp fuel (cur :: older) batch off rem = Some ((h :: t) ++ older) /\
+     concat (rev (h :: t)) = cur ++ skipn off batch /\
+     length h <= cp /\ Forall (fun c => length c = cp) t /\ (t <> [] -> h <> []).
+Proof.
+  induction fuel as [|f IH]; intros cp batch older cur off rem Hcp Hcur Hlen Hfuel.
+  - unfold need in Hfuel. destruct (rem =? 0); lia.
+  - cbn [append_loop]. destruct (Nat.eqb_spec rem 0) as [E|E].
+    + exists cur, []. split; [reflexivity|]. split; [|split; [exact Hcur|split; [constructor|intros H; contradiction]]].
+      cbn. rewrite app_nil_r. rewrite skipn_all2 by lia. rewrite app_nil_r. reflexivity.
+    + set (copy := Nat.min (cp - length cur) rem).
+      assert (Hsk : length (skipn off batch) = rem) by (rewrite skipn_length; lia).
+      assert (Hfl : length (firstn copy (skipn off batch)) = copy) by (rewrite firstn_length, Hsk; unfold copy; lia).
+      assert (Halg : forall x, x = skipn (off + copy) batch ->
+                (cur ++ firstn copy (skipn off batch)) ++ x = cur ++ skipn off batch).
+      { intros x ->. rewrite <- app_assoc. f_equal. rewrite skipn_add. apply firstn_skipn. }
+      unfold need in Hfuel. destruct (Nat.eqb_spec rem 0) as [|_]; [contradiction|].
+      destruct (Nat.ltb_spec 0 (rem - copy)) as [Hr|Hr].
+      * (* the batch does not fit: the current chunk is filled up, a new chunk is allocated *)
+        assert (Hfull : length (cur ++ firstn copy (skipn off batch)) = cp) by (rewrite app_length, Hfl; unfold copy in *; lia).
+        destruct (IH cp batch ((cur ++ firstn copy (skipn off batch)) :: older) [] (off + copy) (rem - copy)) as (h & t & He & Hc & Hh & Ht & Hn).
+        -- exact Hcp.
+        -- cbn; lia.
+        -- unfold copy in *; lia.
+        -- unfold need. destruct (Nat.eqb_spec (rem - copy) 0); [lia|]. cbn [length].
+           destruct (Nat.ltb_spec 0 cp); [|lia]. destruct (Nat.ltb_spec (length cur) cp); unfold copy in *; lia.
+        -- exists h, (t ++ [cur ++ firstn copy (skipn off batch)]). repeat split.
+           ++ rewrite He. f_equal. cbn [app]. f_equal. rewrite <- app_assoc. reflexivity.
+           ++ change (h :: t ++ [cur ++ firstn copy (skipn off batch)]) with ((h :: t) ++ [cur ++ firstn copy (skipn off batch)]).
+              rewrite rev_app_distr. rewrite concat_app, Hc.
+              change (concat (rev [cur ++ firstn copy (skipn off batch)])) with ((cur ++ firstn copy (skipn off batch)) ++ []).
+              rewrite app_nil_r. cbn [app]. apply Halg. reflexivity.
+           ++ exact Hh.
+           ++ apply Forall_app. split; [exact Ht|]. constructor; [exact Hfull|constructor].
+           ++ intros _. destruct t as [|t0 t1].
+              ** cbn in Hc. rewrite app_nil_r in Hc. intros ->. apply (f_equal (@length row)) in Hc.
+                 rewrite skipn_length in Hc. cbn in Hc. unfold copy in *; lia.
+              ** apply Hn. discriminate.
+      * (* the rest of the batch fits into the current chunk *)
+        assert (Hcopy : copy = rem) by (unfold copy in *; lia).
+        destruct (IH cp batch older (cur ++ firstn copy (skipn off batch)) (off + copy) (rem - copy)) as (h & t & He & Hc & Hh & Ht & Hn).
+        -- exact Hcp.
+        -- rewrite app_length, Hfl. unfold copy in *; lia.
+        -- lia.
+        -- unfold need. destruct (Nat.eqb_spec (rem - copy) 0); lia.
+        -- exists h, t. repeat split; auto. rewrite Hc. apply Halg. reflexivity.
+Qed.
+
+Lemma chunk_rows_app : forall a b, chunk_rows (a ++ b) = chunk_rows b ++ chunk_rows a.
+Proof. intros. unfold chunk_rows. rewrite rev_app_distr, concat_app. reflexivity. Qed.
+
+(* one append_batch: nothing lost, duplicated or reordered; all chunks but the current one full *)
+Lemma seg_append_spec : forall cp rchs batch, 0 < cp -> wfc cp rchs ->
+  exists rchs', seg_append true cp rchs batch = Some rchs' /\ chunk_rows rchs' = chunk_rows rchs ++ batch /\ wfc cp rchs' /\ rchs' <> [].
+Proof.
+  intros cp rchs batch Hcp Hw. unfold seg_append.
+  destruct rchs as [|cur older].
+  - assert (F : need cp [] (length batch) <= length batch + 2)
+      by (unfold need; destruct (length batch =? 0); destruct (length (@nil row) <? cp); lia).
+    assert (L0 : length (@nil row) <= cp) by (cbn; lia).
+    destruct (append_loop_spec (length batch + 2) cp batch [] [] 0 (length batch) Hcp L0 eq_refl F) as (h & t & He & Hc & Hh & Ht & Hn).
+    exists ((h :: t) ++ []). rewrite app_nil_r in *. split; [exact He|].
+    split; [unfold chunk_rows; rewrite Hc; reflexivity|]. split; [|discriminate].
+    cbn [wfc]. repeat split; assumption.
+  - destruct Hw as (W1 & W2 & W3).
+    assert (F : need cp cur (length batch) <= length batch + 2)
+      by (unfold need; destruct (length batch =? 0); destruct (length cur <? cp); lia).
+    destruct (append_loop_spec (length batch + 2) cp batch older cur 0 (length batch) Hcp W1 eq_refl F) as (h & t & He & Hc & Hh & Ht & Hn).
+    exists ((h :: t) ++ older). split; [exact He|]. split; [|split; [|discriminate]].
+    + rewrite chunk_rows_app. unfold chunk_rows at 2. rewrite Hc. cbn [skipn].
+      unfold chunk_rows. cbn [rev]. rewrite concat_app. cbn [concat]. rewrite app_nil_r, app_assoc. reflexivity.
+    + cbn [app wfc]. repeat split; [exact Hh|apply Forall_app; split; assumption|].
+      intros Hne. destruct t as [|t0 t1]; [|apply Hn; discriminate].
+      cbn [app] in Hne. cbn in Hc. rewrite app_nil_r in Hc. intros ->.
+      specialize (W3 Hne). destruct cur; [contradiction|discriminate].
+Qed.
+
+(* any sequence of append_batch calls, batches of any sizes, any chunk capacity > 0 *)
+Theorem seg_appends_exact_proof : forall cp batches rchs, 0 < cp -> wfc cp rchs ->
+  exists rchs', seg_appends true cp rchs batches = Some rchs' /\
+    chunk_rows rchs' = chunk_rows rchs ++ concat batches /\ wfc cp rchs'.
+Proof.
+  intros cp batches. induction batches as [|b r IH]; intros rchs Hcp Hw; cbn [seg_appends concat].
+  - exists rchs. rewrite app_nil_r. auto.
+  - destruct (seg_append_spec cp rchs b Hcp Hw) as (r1 & E1 & C1 & W1 & _). rewrite E1.
+    destruct (IH r1 Hcp W1) as (r2 & E2 & C2 & W2). exists r2. repeat split; [exact E2| |exact W2].
+    rewrite C2, C1, app_assoc. reflexivity.
+Qed.
+
+Lemma full_chunks_length : forall cp (l : list (list row)), Forall (fun c => length c = cp) l -> length (concat l) = cp * length l.
+Proof. intros cp l H. induction H as [|c l Hc H IH]; cbn; [lia|]. rewrite app_length, IH, Hc. lia. Qed.
+
+(* the number of chunks is the closed form used by the collection model (`nchunks`, flush threshold of do_append) *)
+Theorem chunk_count_is_nchunks_proof : forall cp rchs, 0 < cp -> wfc cp rchs -> rchs <> [] ->
+  length rchs = nchunks cp true (length (chunk_rows rchs)).
+Proof.
+  intros cp rchs Hcp Hw Hne. destruct rchs as [|cur older]; [contradiction|]. destruct Hw as (W1 & W2 & W3).
+  unfold chunk_rows, nchunks. cbn [rev length]. rewrite concat_app, app_length. cbn [concat]. rewrite app_nil_r.
+  rewrite full_chunks_length with (cp := cp) by (apply Forall_rev; exact W2). rewrite rev_length.
+  destruct older as [|o older'].
+  - cbn [length]. rewrite Nat.mul_0_r. cbn [Nat.add].
+    destruct (length cur) as [|lc] eqn:E.
+    + rewrite Nat.div_small by lia. reflexivity.
+    + assert (Hd : (S lc + cp - 1) / cp = 1).
+      { symmetry. apply (Nat.div_unique _ _ 1 lc); lia. }
+      rewrite Hd. reflexivity.
+  - assert (Hc : cur <> []) by (apply W3; discriminate).
+    assert (1 <= length cur) by (destruct cur; [contradiction|cbn; lia]).
+    set (n := length (o :: older')) in *.
+    assert (Hd : (cp * n + length cur + cp - 1) / cp = S n).
+    { symmetry. apply (Nat.div_unique _ _ (S n) (length cur - 1)); lia. }
+    rewrite Hd. lia.
+Qed.
+
+Lemma cflush_concat : forall sg rchs, concat (cflush sg rchs) = concat sg ++ chunk_rows rchs.
+Proof.
+  intros sg rchs. unfold cflush. destruct (chunk_rows rchs) eqn:E; [rewrite app_nil_r; reflexivity|].
+  rewrite concat_app. cbn [concat]. rewrite app_nil_r. reflexivity.
+Qed.
+
+(* one appender partition with flushes: the table content is the previous content followed by the batches *)
+Theorem bulk_content_proof : forall cp sz batches sg rchs, 0 < cp -> wfc cp rchs ->
+  exists sg', bulk true cp sz sg rchs batches = Some sg' /\ concat sg' = concat sg ++ chunk_rows rchs ++ concat batches.
+Proof.
+  intros cp sz batches. induction batches as [|b r IH]; intros sg rchs Hcp Hw; cbn [bulk concat].
+  - eexists. split; [reflexivity|]. rewrite cflush_concat, app_nil_r. reflexivity.
+  - destruct (seg_append_spec cp rchs b Hcp Hw) as (r1 & E1 & C1 & W1 & _). rewrite E1.
+    destruct (sz <=? length r1).
+    + destruct (IH (cflush sg r1) [] Hcp Logic.I) as (sg' & E2 & C2). exists sg'. split; [exact E2|]. rewrite C2.
+      rewrite cflush_concat, C1. change (chunk_rows []) with (@nil row). cbn [app]. rewrite <- !app_assoc. reflexivity.
+    + destruct (IH sg r1 Hcp W1) as (sg' & E2 & C2). exists sg'. split; [exact E2|]. rewrite C2, C1, <- !app_assoc. reflexivity.
+Qed.
+
+(* the `input_offset = copy_count` variant: a batch spanning three chunks is stored with rows duplicated and lost,
+   the count unchanged *)
+Lemma seg_append_eq_variant_refuted_proof :
+  exists cp batch rchs', seg_append false cp [] batch = Some rchs' /\
+    length (chunk_rows rchs') = length batch /\ chunk_rows rchs' <> batch /\
+    seg_append true cp [] batch = Some (rev [[1; 2]; [3; 4]; [5; 6]])%N.
+Proof.
+  exists 2, [1; 2; 3; 4; 5; 6]%N. eexists. split; [vm_compute; reflexivity|].
+  split; [vm_compute; reflexivity|]. split; [vm_compute; discriminate|vm_compute; reflexivity].
+Qed.
+
+Example seg_appends_satisfiable :
+  seg_appends true 3 [] [[1]; [2; 3; 4; 5; 6; 7; 8]; []; [9]]%N = Some [[7; 8; 9]; [4; 5; 6]; [1; 2; 3]]%N /\ wfc 3 [].
+Proof. split; [vm_compute; reflexivity|exact Logic.I]. Qed.
